@@ -286,7 +286,14 @@ def rule_json(ck):
                             continue
                         if not (isinstance(t, ast.Call) and u(t.func) == 'isinstance' and len(t.args) == 2 and u(t.args[0]) == prm):
                             continue
-                        kinds = [P.canon(g, k_) for k_ in (t.args[1].elts if isinstance(t.args[1], ast.Tuple) else [t.args[1]])]
+                        kexpr = t.args[1]
+                        if isinstance(kexpr, ast.Name):
+                            # a module constant naming the tuple of types
+                            for st_ in g.module.tree.body:
+                                if isinstance(st_, ast.Assign) and len(st_.targets) == 1 and isinstance(st_.targets[0], ast.Name) \
+                                        and st_.targets[0].id == kexpr.id and isinstance(st_.value, ast.Tuple):
+                                    kexpr = st_.value
+                        kinds = [P.canon(g, k_) for k_ in (kexpr.elts if isinstance(kexpr, ast.Tuple) else [kexpr])]
                         conv = isinstance(val, ast.Call) and (
                             (isinstance(val.func, ast.Attribute) and val.func.attr in ('tolist', 'item') and u(val.func.value) == prm)
                             or (u(val.func) in ('int', 'float') and len(val.args) == 1 and u(val.args[0]) == prm))
